@@ -188,6 +188,8 @@ def gen_pair_spec(rng, kind):
     else:
         spec.update(max_t=rng.choice([3, 6]), max_trials=rng.randint(3, 10))
     spec["steps"] = rng.randint(30, 400)
+    # dill round trip of the scheduler (what Tuner.save / load do) at a random point, in BOTH runs of the pair
+    spec["dill_at"] = rng.randint(3, max(4, spec["steps"] // 2)) if rng.random() < 0.45 else None
     if kind in ("sync_hb", "dehb"):
         # trials failing while pending in a rung (on_trial_error), same trial and same moment in both modes
         spec["fail_prob"] = rng.choice([0.0, 0.03, 0.08, 0.15])
@@ -324,9 +326,19 @@ def run_one(spec, variant, overrides, limit=None):
     next_id, started = 0, 0
     max_t = spec["max_t"]
     sink = io.StringIO()
-    for _ in range(spec["steps"]):
+    for step in range(spec["steps"]):
         if limit is not None and len(trace) >= limit:
             break
+        if spec.get("dill_at") is not None and step == spec["dill_at"]:
+            import dill
+            try:
+                sch = dill.loads(dill.dumps(sch))
+            except Exception as e:  # not serialisable in both modes alike: compared like any other event
+                trace.append(("raised", "dill", step, type(e).__name__))
+                break
+            if oh is not None:
+                oh = sch.bracket_distribution
+            trace.append(("restored", step))
         want_suggest = len(running) < spec["workers"] and (started < spec["max_trials"] or paused)
         x = rng.random()
         if want_suggest and (x < 0.5 or not running):
@@ -922,7 +934,8 @@ def run(ctx, replay=None):
                 "scheduler only, or to scheduler and searcher; population 4..8, >= 3x population trials), MOASHA with "
                 "per-metric modes) under a harness-side tuner "
                 "loop: mode min on a random metric table f versus mode max on -f (MOASHA: a subset of the metrics flipped "
-                "and negated), same seeds and script; all suggestions (configs, resumed "
+                "and negated), same seeds and script, in 45% of the pairs with a dill round trip of the scheduler at a random point "
+                "of both runs; all suggestions (configs, resumed "
                 "trials, checkpoints) and decisions are compared; non-trivial = the run contains a STOP/PAUSE decision or a "
                 "resumed trial (REA: a suggestion by mutation); (b) unit cases for get_top_list, MedianStoppingRule, "
                 "print_best_metric_found, RegularizedEvolution, MOASHA signed metrics, ExperimentResult.best_config in both "
@@ -967,6 +980,8 @@ def run(ctx, replay=None):
         ctx.h("pair_nontrivial_events", spec["sched"], n_nontrivial)
         ctx.h("pair_failures_injected", spec["sched"], sum(1 for e in a if e[0] == "failed"))
         ctx.h("pair_completes_with_new_result", spec["sched"], sum(1 for e in a if e[0] == "completed"))
+        if any(e[0] == "restored" for e in a):
+            ctx.h("pair_dill_round_trip", spec["sched"])
         if a and a[-1][0] == "raised":
             ctx.h("pair_raised_in_both_modes", "%s:%s" % (spec["sched"], a[-1][3]))
         if boundary:
